@@ -44,6 +44,11 @@ def run(ctx):
     cases.append(([], lambda l: l, big))
     cases.append((["-k", "2", "-t", " "], lambda l: (l.split(b" ") + [b""])[1], big))
     cases.append(([], lambda l: l, [b"q" * 70000, b"r", b"q" * 70000, b"s" * 300000]))
+    # long runs of repeats: nothing is sent to the child for tens of thousands of lines while entries pile up between
+    # the threads (more than any plausible bound on that backlog)
+    cases.append(([], lambda l: l, [b"x"] * 70001))
+    cases.append(([], lambda l: l, [b"row %d" % i for i in range(5000)] + [b"row %d" % (i % 100) for i in range(140000)]))
+    cases.append((["-k", "1", "-t", " "], lambda l: l.split(b" ")[0], [b"k%d v%d" % (i % 50, i) for i in range(80000)]))
     # paced input: the upstream producer stalls at chosen lines so that the output thread catches up with the input
     # thread.  It can catch up completely only when everything sent so far has been flushed to the child, i.e. after
     # the explicit flush at the 4096th new line followed by duplicates only; the stalls sit at and around the multiples
